@@ -80,7 +80,7 @@ def run_case(case):
         with net.installed():
             try:
                 ws = websocket.WebSocket()
-                ws.connect(f"ws://{hops[0]['host']}/c", **kw)
+                ws.connect(f"ws://{hops[0]['host']}{(':%d' % stp['port']) if stp.get('port') else ''}/c", **kw)  # the port plays no part in cookie matching
             except Exception as e:
                 obs.fail(exc_bucket("history|connect-raised", e), f"step {i}: {type(e).__name__}: {e}")
                 break
@@ -167,6 +167,7 @@ step = st.fixed_dictionaries(
         "domain_on": st.sampled_from(["first", "all"]),
         "cookie": st.sampled_from(["mine=1", "x=y; w=z"]),
         "path": st.booleans(),
+        "port": st.sampled_from([8080, 443, 8443, 81]),
         "field": st.sampled_from(["Set-Cookie", "set-cookie", "SET-COOKIE", "Set-cookie"]),
         "host_opt": st.sampled_from(["example.com", "sub.example.com", "other.test", "evil.test"]),
         # the connection first goes to another host, which answers with a redirect (a handshake response, too) that may set cookies
